@@ -360,7 +360,7 @@ def _public(mod, skip=()):
 
 
 _STD_VOCABULARY = {
-    "functools": {"partial": _functools.partial, "reduce": _functools.reduce},
+    "functools": {"partial": _functools.partial, "reduce": _functools.reduce, "wraps": _functools.wraps, "lru_cache": _functools.lru_cache, "cache": _functools.lru_cache(maxsize=None)},
     "operator": _public(_operator),
     "itertools": {**_public(_itertools, ("count", "repeat", "cycle", "tee")), "count": _count, "repeat": _repeat, "cycle": _cycle},
     "bisect": _public(_bisect),
@@ -400,6 +400,8 @@ def _module_level(node: ast.AST, name: str, funcs, depth):
         for st in root.body:
             if isinstance(st, ast.FunctionDef):
                 top[st.name] = st
+            elif isinstance(st, ast.ClassDef) and any((un(b).split(".")[-1]) == "NamedTuple" for b in st.bases):
+                top[st.name] = st
             elif isinstance(st, (ast.Assign, ast.AnnAssign)) and getattr(st, "value", None) is not None:
                 tg = st.targets[0] if isinstance(st, ast.Assign) and len(st.targets) == 1 else getattr(st, "target", None)
                 if isinstance(tg, ast.Name):
@@ -410,6 +412,13 @@ def _module_level(node: ast.AST, name: str, funcs, depth):
         return _MISSING
     if isinstance(d, ast.FunctionDef):
         return lambda *a, **k: call(d, list(a), k, funcs, depth + 1)
+    if isinstance(d, ast.ClassDef):
+        cache = getattr(root, "_pvs_namedtuples", None)
+        if cache is None:
+            cache = root._pvs_namedtuples = {}      # type: ignore[attr-defined]
+        if name not in cache:
+            cache[name] = _namedtuple_class(d, funcs, depth)
+        return cache[name]
     g = funcs.get("$globals") if funcs else None
     busy = getattr(root, "_pvs_busy", None)
     if busy is None:
@@ -424,6 +433,40 @@ def _module_level(node: ast.AST, name: str, funcs, depth):
     if isinstance(g, dict):
         g[name] = v
     return v
+
+
+def _namedtuple_class(cdef: ast.ClassDef, funcs, depth):
+    """a `class X(NamedTuple)` of the analysed module as a real named tuple class: the fields (with their constant defaults) and the
+    methods of its body (interpreted when called) - a small record type a refactoring introduces for a helper's result"""
+    import collections
+    fields, defaults = [], []
+    for st in cdef.body:
+        if isinstance(st, ast.AnnAssign) and isinstance(st.target, ast.Name):
+            fields.append(st.target.id)
+            if st.value is not None:
+                defaults.append(ev(st.value, {}, funcs, depth + 1))
+            elif defaults:
+                raise Unsupported(f"NamedTuple {cdef.name}: a field without default after one with")
+    base = collections.namedtuple(cdef.name, fields, defaults=defaults or None)      # noqa: PYI024
+    ns: dict[str, Any] = {"__slots__": ()}
+    for st in cdef.body:
+        if isinstance(st, ast.FunctionDef):
+            decos = {un(x) for x in st.decorator_list}
+            if "classmethod" in decos:
+                ns[st.name] = classmethod(lambda cls, *a, _f=st, **k: call(_f, [cls, *a], k, funcs, depth + 1))
+            elif "staticmethod" in decos:
+                ns[st.name] = staticmethod(lambda *a, _f=st, **k: call(_f, list(a), k, funcs, depth + 1))
+            elif "property" in decos:
+                ns[st.name] = property(lambda self, _f=st: call(_f, [self], {}, funcs, depth + 1))
+            elif not decos:
+                ns[st.name] = (lambda _f: lambda self, *a, **k: call(_f, [self, *a], k, funcs, depth + 1))(st)
+            else:
+                raise Unsupported(f"NamedTuple {cdef.name}.{st.name}: decorated with {sorted(decos)}")
+    return type(cdef.name, (base,), ns)
+
+
+def _is_record(v) -> bool:
+    return isinstance(v, tuple) and hasattr(type(v), "_fields")
 
 
 def _std_import(node: ast.AST, name: str):
@@ -490,6 +533,8 @@ def ev(n: ast.AST, env: dict[str, Any], funcs: dict[str, ast.FunctionDef] | None
         v = ev(n.value, env, funcs, depth)
         if isinstance(v, _OPEN) or v is _dt or (isinstance(v, type) and v in _STD_CLASSES):
             return _attr(v, n.attr, funcs, depth)
+        if _is_record(v) or (isinstance(v, type) and issubclass(v, tuple) and hasattr(v, "_fields")):
+            return getattr(v, n.attr)           # a field / method of a named tuple built from the analysed module's own class
         raise Unsupported(f"attribute `{un(n)[:40]}`")
     if t is ast.Subscript:
         v = ev(n.value, env, funcs, depth)
@@ -553,6 +598,8 @@ def ev(n: ast.AST, env: dict[str, Any], funcs: dict[str, ast.FunctionDef] | None
                 return vars(tgt)["_ctor"](*args, **kws)
             if isinstance(tgt, ClassStub):
                 return tgt(*args, **kws)
+            if isinstance(tgt, type) and issubclass(tgt, tuple) and hasattr(tgt, "_fields"):
+                return tgt(*args, **kws)
             if tgt in (_dt.timedelta, _dt.date, _dt.datetime, _dt.time, _operator.methodcaller, _operator.attrgetter, _operator.itemgetter) \
                     or isinstance(tgt, (types.BuiltinFunctionType, types.FunctionType)) and n.func.id not in env:
                 # a standard-library constructor / function the world put into the globals (timedelta, copysign, ...)
@@ -607,6 +654,8 @@ def ev(n: ast.AST, env: dict[str, Any], funcs: dict[str, ast.FunctionDef] | None
                             raise           # a stub of the world reporting what the code it stands for raises
                         # what the standard library raises for these arguments (date(2015, 2, 29)): an outcome of the analysed code
                         raise Raised(f"raise reached: {type(e).__name__}: {e}", type(e).__name__) from None
+            if _is_record(recv) or (isinstance(recv, type) and issubclass(recv, tuple) and hasattr(recv, "_fields")):
+                return getattr(recv, n.func.attr)(*args, **kws)
             if isinstance(recv, type) and (recv, n.func.attr) in ((dict, "fromkeys"), (str, "join"), (str, "format"), (int, "from_bytes"), (str, "maketrans")):
                 return getattr(recv, n.func.attr)(*args, **kws)         # a pure class-level function of a builtin type
             if isinstance(recv, (dict, set, frozenset, list, tuple, types.MappingProxyType)) and n.func.attr in ("get", "keys", "values", "items", "index", "count", "copy"):
@@ -616,7 +665,7 @@ def ev(n: ast.AST, env: dict[str, Any], funcs: dict[str, ast.FunctionDef] | None
             if std is not _MISSING and callable(std):
                 return _std_call(std, args, kws)
             std = _module_level(n, n.func.id, funcs, depth)
-            if std is not _MISSING and callable(std) and isinstance(std, _CALLABLE_VALUES):
+            if std is not _MISSING and callable(std) and (isinstance(std, _CALLABLE_VALUES) or (isinstance(std, type) and issubclass(std, tuple))):
                 return std(*args, **kws)
         if isinstance(n.func, (ast.Subscript, ast.IfExp, ast.BoolOp)):
             f = ev(n.func, env, funcs, depth)       # a callable taken out of a table of the analysed code
@@ -780,11 +829,14 @@ def copy_load(t: ast.AST) -> ast.AST:
     return ast.Attribute(t.value, t.attr, ast.Load())
 
 
-def bind(t: ast.AST, v: Any, env: dict[str, Any]) -> None:
+def bind(t: ast.AST, v: Any, env: dict[str, Any], funcs=None) -> None:
     if isinstance(t, ast.Name):
         env[t.id] = v
     elif isinstance(t, ast.Attribute) and isinstance(t.value, ast.Name) and isinstance(env.get(t.value.id), types.SimpleNamespace):
         setattr(env[t.value.id], t.attr, v)
+    elif isinstance(t, ast.Attribute) and isinstance(t.value, ast.Name) and t.value.id not in env and funcs and isinstance(funcs.get("$globals"), dict) \
+            and isinstance(funcs["$globals"].get(t.value.id), types.SimpleNamespace):
+        setattr(funcs["$globals"][t.value.id], t.attr, v)          # an attribute of a module-level object the world provides (a stub of a module, ...)
     elif isinstance(t, ast.Subscript) and isinstance(t.value, ast.Name) and isinstance(env.get(t.value.id), (dict, list)) and not isinstance(t.slice, ast.Slice):
         env[t.value.id][ev(t.slice, env)] = v
     elif isinstance(t, ast.Subscript) and isinstance(t.value, ast.Attribute) and not isinstance(t.slice, ast.Slice):
@@ -818,10 +870,10 @@ def run(stmts: list[ast.stmt], env: dict[str, Any], funcs: dict[str, ast.Functio
         if isinstance(s, ast.Assign):
             v = ev(s.value, env, funcs, depth)
             for t in s.targets:
-                bind(t, v, env)
+                bind(t, v, env, funcs)
         elif isinstance(s, ast.AnnAssign):
             if s.value is not None:
-                bind(s.target, ev(s.value, env, funcs, depth), env)
+                bind(s.target, ev(s.value, env, funcs, depth), env, funcs)
         elif isinstance(s, ast.AugAssign):
             if isinstance(s.target, ast.Name):
                 cur = ev(ast.Name(s.target.id, ast.Load()), env, funcs, depth)
@@ -1002,8 +1054,25 @@ def run_gen(stmts, env, funcs, depth):
             raise Unsupported(f"`yield` inside `{type(s).__name__.lower()}`")
 
 
+_PLAIN_DECORATORS = {"property", "classmethod", "staticmethod", "overload", "typing.overload", "abstractmethod", "abc.abstractmethod", "functools.cached_property", "cached_property",
+                     "final", "typing.final"}
+
+
 def call(fn: ast.FunctionDef, args: list[Any], kws: dict[str, Any] | None = None, funcs: dict[str, ast.FunctionDef] | None = None,
-         depth: int = 0) -> Any:
+         depth: int = 0, _raw: bool = False) -> Any:
+    if not _raw and fn.decorator_list:
+        custom = [d for d in fn.decorator_list if un(d.func if isinstance(d, ast.Call) else d) not in _PLAIN_DECORATORS and not un(d).endswith((".setter", ".getter", ".deleter"))]
+        if custom:
+            # a decorator of the analysed program (a guard, a wrapper): applied as the program applies it - innermost first - to the interpreted function
+            if depth > 10:
+                raise Unsupported("call depth")
+            f = lambda *a, **k: call(fn, list(a), k, funcs, depth + 1, True)        # noqa: E731
+            for d in reversed(custom):
+                deco = ev(d, {}, funcs, depth + 1)
+                if not callable(deco):
+                    raise Unsupported(f"decorator `{un(d)[:40]}` is not callable in the interpreter")
+                f = deco(f)
+            return f(*args, **(kws or {}))
     names = [a.arg for a in fn.args.args]
     env = dict(zip(names, args))
     if fn.args.vararg is not None:
